@@ -145,11 +145,9 @@ class MDOParallelChain(ProcessDiscipline):
         # Update jacobians according to input order of priority
         for discipline_jacobian in jacobians:
             for output_name, output_jacobian in discipline_jacobian.items():
-                chain_jacobian = self.jac.get(output_name)
-                if chain_jacobian is None:
-                    chain_jacobian = {}
-                    self.jac[output_name] = chain_jacobian
-                chain_jacobian.update(output_jacobian)
+                # As in _execute,
+                # the last discipline computing an output defines it.
+                self.jac[output_name] = dict(output_jacobian)
 
         self._init_jacobian(
             input_names,
